@@ -1,6 +1,12 @@
-from math import floor
+from math import floor, isfinite
 from .parser import parse, TokenType, Operator, Token, MathExpressionException
 from .extract import extract
+
+def int_divide(a, b):
+    "Integer division: quotient rounded down. Overflown quotient (`inf`, `nan`) is returned as is"
+    result = a / b
+    return floor(result) if isfinite(result) else result
+
 
 ops1 = {
     Operator.Minus: lambda num: -num
@@ -11,7 +17,7 @@ ops2 = {
     Operator.Minus: lambda a, b: a - b,
     Operator.Multiply: lambda a, b: a * b,
     Operator.Divide: lambda a, b: a / b,
-    Operator.IntDivide: lambda a, b: floor(a / b)
+    Operator.IntDivide: lambda a, b: int_divide(a, b)
 }
 
 def evaluate(expr: str):
